@@ -68,12 +68,13 @@ Proof. exact tight_every_history. Qed.
 Print Assumptions C05_every_history_tightly_packed.
 
 (* ... and for EVERY well-formed list, non-trivial value types included (erase with elements
-   behind the erased ones only on trivially relocatable lists, NtRefine.nt_hist_ok) *)
+   behind the erased ones only on trivially relocatable lists and on lists
+   without a VaryingSize parameter, NtRefine.nt_hist_okx) *)
 Theorem C05_every_history_tightly_packed_every_list : forall L cap budget fixed aid junk bid tbid h,
   wf_plist L = true -> 0 <= cap -> Forall (fun c => 0 <= c) fixed ->
   let v0 := fst (mkvec L cap budget fixed aid junk bid tbid) in
   let s0 := {| s_cap := cap; s_elems := [] |} in
-  shist_valid L (fixed_counts L fixed) s0 h -> nt_hist_ok L s0 h ->
+  shist_valid L (fixed_counts L fixed) s0 h -> nt_hist_okx L s0 h ->
   let v := vrun L junk v0 h in
   let l := s_elems (srun s0 h) in
   (forall i, (i < length l)%nat -> eaddr L v (Z.of_nat i) = first_align L (prev_end L v l i)) /\
